@@ -47,6 +47,13 @@ CLAIMED['C11'] = dict(
     note='Trusted: rustc MIR, the driver, spec table, IntMap/HashMap semantics. The 0->0, 63->255 value fact of the scaling formula is not decided (value-level).',
     technique='static analysis: read-schedule path enumeration vs spec + sibling comparison + effect analysis + must-pass-through dominance')
 
+CLAIMED['C02'] = dict(
+    category='other',
+    text='Static check of the compositing skeleton over rustc MIR - eight clauses, each a necessary condition of bottom-to-top composition, decided for all inputs: fresh width x height canvas returned; cels visited through data[frame].iter().enumerate().filter_map (ascending layer index) with no early exit; slot storage by (frame, layer) with duplicate cels rejected; the only write_cel in the frame loop dominated by is_visible()==true of the same item\'s layer; per-pixel opacity = mul_un8(layer opacity of the cel\'s own layer, cel opacity); per-pixel function = blend_mode_to_blend_fn(mode of the cel\'s own layer) with the 19-row mode->function and code->mode tables equal to the spec; backdrop read and result store at the same (x, y), source from the cel pixel slice; cel offset sign-extended and every pixel access guarded by 0 <= coord < dimension. Partial: pixel values, clip index arithmetic and mul_un8 rounding are not decided.',
+    design_ref='DESIGN.md section 4, C02',
+    note='Trusted: rustc MIR, the driver, image::ImageBuffer::new zero-fills, the blend-mode numbering of the spec (DESIGN.md Appendix A). Structural clauses only; numeric equality with Aseprite is C03 (not applicable).',
+    technique='static analysis: MIR provenance + dominance (guards) + switch-table extraction')
+
 ALL = ['C%02d' % i for i in range(1, 20)]
 
 
